@@ -134,6 +134,22 @@ def gen_programs(tier: str) -> Iterator[dict]:
                 yield {"id": f"O:{wiring}:{placement}:{seq}", "space": "O", "src": src, "runs": [{"passes": 0 if placement == "setup" else 2}], "geom": [cols, rows]}
 
 
+def gen_two_lcds(tier: str) -> Iterator[dict]:
+    """Two displays of different wiring and size in one sketch: object / width variables must not mix."""
+    ops_a = ['lcd.write(2, 0, "Hello")', 'lcd.line(1, "right", align="right")', 'lcd.message("AA", "BB", top_align="center")', "lcd.clear()", 'lcd.progress(0, 50, width=8, style="hash")', "lcd.brightness(40)", "lcd.backlight(False)"]
+    ops_b = ['pan.write(1, 1, "xyz")', 'pan.line(0, "a long line of text", align="center")', 'pan.message(bottom="bb")', "pan.clear()", 'pan.progress(1, 2, max_value=4, style="dot")', "pan.glyph(3, [1, 2, 4, 8, 16, 8, 4, 2])", "pan.backlight(False)"]
+    decls = ["lcd = LCD(rs=30, en=31, d4=32, d5=33, d6=34, d7=35, cols=16, rows=2, backlight_pin=10)", "pan = LCD(i2c_addr=39, cols=8, rows=2)"]
+    seqs = list(itertools.product(ops_a, ops_b)) + list(itertools.product(ops_b, ops_a))
+    if tier == "thorough":
+        seqs += list(itertools.product(ops_a, ops_b, ops_a)) + list(itertools.product(ops_b, ops_a, ops_b))
+    for idx, seq in enumerate(seqs):
+        lines: List[str] = []
+        for k, op in enumerate(seq):
+            lines += [op, f'mon.write("#{k}")']
+        for order in (decls, decls[::-1]):
+            yield {"id": f"O2:{idx}:{0 if order is decls else 1}", "space": "O", "src": common.script(list(order) + lines, prologue=PRO), "runs": [{"passes": 0}], "geom": [16, 2]}
+
+
 # ------------------------------------------------------------------------------------------
 # progress layer
 # ------------------------------------------------------------------------------------------
@@ -246,6 +262,7 @@ def judge(case, tr, dev_runs, host_runs):
 def generate(tier: str, only=None) -> Iterator[dict]:
     if not only or "O" in only:
         yield from gen_programs(tier)
+        yield from gen_two_lcds(tier)
     if not only or "G" in only:
         yield from gen_progress(tier)
     if not only or "H" in only:
